@@ -72,7 +72,7 @@ def generate(R, tier):
         "preinit": R.random() < 0.7,
         "modes": {k: R.choice(MODES) for k in ("psel", "mate", "eval", "ssel")},
         "crashes": sorted(set(crashes)),
-        "world": {"seed": R.randrange(1 << 30), "ntaxa": R.randint(1, 4), "nvrnt": R.randint(1, 5)},
+        "world": {"seed": R.randrange(1 << 30), "ntaxa": R.randint(1, 4), "nvrnt": R.randint(1, 5), "grouped": R.random() < 0.6},
         "t_max": R.randint(0, 9),
         "rep0": R.choice([0, 0, 3]),
         # legal initial states in which some containers are still empty (nothing phenotyped / estimated yet)
@@ -120,6 +120,13 @@ def _mkstart(w):
     from pybrops.popgen.gmat.DenseGenotypeMatrix import DenseGenotypeMatrix
     g4 = DenseGenotypeMatrix(numpy.array([[R.randint(0, 4) for _ in range(w["nvrnt"])] for _ in range(w["ntaxa"])], dtype="int8"),
                              taxa=pg.taxa, taxa_grp=pg.taxa_grp, vrnt_chrgrp=pg.vrnt_chrgrp, vrnt_phypos=pg.vrnt_phypos, ploidy=4)
+    if w.get("grouped", True):
+        # matrices whose taxa have been grouped carry group metadata (names, start/stop indices, lengths)
+        for m_ in (pg, g4, bv):
+            try:
+                m_.group_taxa()
+            except Exception:
+                pass
     out = [{"pg": pg, "k": 0}, {"pg": copy.deepcopy(pg), "g4": g4, "k": 1}, {"tbl": numpy.arange(3.0), "k": 2},
            {"bv": bv, "k": 3}, {"gm": gm, "k": 4}]
     for i in w.get("empty", []):
@@ -249,12 +256,19 @@ class Sim:
 
 
 def _mkops(sim, modes):
-    def opcall(name, t_cur, conts, mcfg=None):
+    def opcall(name, t_cur, conts, mcfg=None, miscout=None):
         inp = [cdig(c) for c in conts]
         if name == "eval" and t_cur == 0:
             sim.repl += 1
         info = {"t": t_cur, "inp": inp, "stamp": [c.get("stamp") if isinstance(c, dict) else None for c in conts],
-                "prev": sim.last_ret, "mcfg": mcfg, "prev_mcfg": sim.last_mcfg, "repl": sim.repl}
+                "prev": sim.last_ret, "mcfg": mcfg, "prev_mcfg": sim.last_mcfg, "repl": sim.repl,
+                "misc_in": None if miscout is None else sorted(miscout)}
+        if miscout is not None:
+            # auxiliary output of this step, to be shown to the logbook with this step
+            sim.last_aux = {name + "_aux": sim.serial + 1}
+            miscout.update(sim.last_aux)
+        else:
+            sim.last_aux = {}
         sim.tick(name, info)
 
     class I(InitializationOperator):
@@ -264,24 +278,24 @@ def _mkops(sim, modes):
 
     class P(ParentSelectionOperator):
         def pselect(self, genome, geno, pheno, bval, gmod, t_cur, t_max, miscout=None, **kw):
-            opcall("psel", t_cur, (genome, geno, pheno, bval, gmod))
+            opcall("psel", t_cur, (genome, geno, pheno, bval, gmod), miscout=miscout)
             o = sim.produce((genome, geno, pheno, bval, gmod), modes["psel"])
             sim.last_mcfg = ["mcfg", sim.serial]
             return (list(sim.last_mcfg), *o)
 
     class M(MatingOperator):
         def mate(self, mcfg, genome, geno, pheno, bval, gmod, t_cur, t_max, miscout=None, **kw):
-            opcall("mate", t_cur, (genome, geno, pheno, bval, gmod), mcfg)
+            opcall("mate", t_cur, (genome, geno, pheno, bval, gmod), mcfg, miscout=miscout)
             return tuple(sim.produce((genome, geno, pheno, bval, gmod), modes["mate"]))
 
     class E(EvaluationOperator):
         def evaluate(self, genome, geno, pheno, bval, gmod, t_cur, t_max, miscout=None, **kw):
-            opcall("eval", t_cur, (genome, geno, pheno, bval, gmod))
+            opcall("eval", t_cur, (genome, geno, pheno, bval, gmod), miscout=miscout)
             return tuple(sim.produce((genome, geno, pheno, bval, gmod), modes["eval"]))
 
     class S(SurvivorSelectionOperator):
         def sselect(self, genome, geno, pheno, bval, gmod, t_cur, t_max, miscout=None, **kw):
-            opcall("ssel", t_cur, (genome, geno, pheno, bval, gmod))
+            opcall("ssel", t_cur, (genome, geno, pheno, bval, gmod), miscout=miscout)
             return tuple(sim.produce((genome, geno, pheno, bval, gmod), modes["ssel"]))
 
     class L(Logbook):
@@ -291,24 +305,25 @@ def _mkops(sim, modes):
         data = property(lambda s: s._data, lambda s, v: setattr(s, "_data", v))
         rep = property(lambda s: s._rep, lambda s, v: setattr(s, "_rep", v))
 
-        def _log(s, name, t_cur, conts, mcfg=None):
+        def _log(s, name, t_cur, conts, mcfg=None, aux=None):
             sim.tick(name, {"t": t_cur, "rep": s._rep, "inp": [cdig(c) for c in conts], "prev": sim.last_ret,
-                            "mcfg": mcfg, "prev_mcfg": sim.last_mcfg, "repl": sim.repl})
+                            "mcfg": mcfg, "prev_mcfg": sim.last_mcfg, "repl": sim.repl,
+                            "aux": {k: v for k, v in (aux or {}).items() if k.endswith("_aux")}, "want_aux": dict(getattr(sim, "last_aux", {}))})
 
         def log_initialize(s, genome, geno, pheno, bval, gmod, t_cur, t_max, **kw):
-            s._log("log_init", t_cur, (genome, geno, pheno, bval, gmod))
+            s._log("log_init", t_cur, (genome, geno, pheno, bval, gmod), aux=kw)
 
         def log_pselect(s, mcfg, genome, geno, pheno, bval, gmod, t_cur, t_max, **kw):
-            s._log("log_psel", t_cur, (genome, geno, pheno, bval, gmod), mcfg)
+            s._log("log_psel", t_cur, (genome, geno, pheno, bval, gmod), mcfg, aux=kw)
 
         def log_mate(s, mcfg, genome, geno, pheno, bval, gmod, t_cur, t_max, **kw):
-            s._log("log_mate", t_cur, (genome, geno, pheno, bval, gmod), mcfg)
+            s._log("log_mate", t_cur, (genome, geno, pheno, bval, gmod), mcfg, aux=kw)
 
         def log_evaluate(s, genome, geno, pheno, bval, gmod, t_cur, t_max, **kw):
-            s._log("log_eval", t_cur, (genome, geno, pheno, bval, gmod))
+            s._log("log_eval", t_cur, (genome, geno, pheno, bval, gmod), aux=kw)
 
         def log_sselect(s, genome, geno, pheno, bval, gmod, t_cur, t_max, **kw):
-            s._log("log_ssel", t_cur, (genome, geno, pheno, bval, gmod))
+            s._log("log_ssel", t_cur, (genome, geno, pheno, bval, gmod), aux=kw)
 
         def reset(s):
             pass
@@ -372,6 +387,14 @@ def _check_segment(sim, seg, exp, crashed, step_ix, init_dig, rep_before):
                 return
         if n in ("mate", "log_psel", "log_mate") and e["mcfg"] != e["prev_mcfg"]:
             sim.viol.append(viol("handover", C, "mcfg:" + n, "evolve #%d: %s received mcfg %r, pselect returned %r" % (step_ix, n, e["mcfg"], e["prev_mcfg"]), step=step_ix))
+            return
+        if not n.startswith("log") and e.get("misc_in"):
+            sim.viol.append(viol("logging-after-every-step", C, "stale-auxiliary-output:op:" + n,
+                                 "evolve #%d: %s at t=%s was handed an auxiliary-output dict that already held %s" % (step_ix, n, e["t"], e["misc_in"]), step=step_ix))
+            return
+        if n.startswith("log") and e.get("aux") != e.get("want_aux"):
+            sim.viol.append(viol("logging-after-every-step", C, "auxiliary-output:" + n,
+                                 "evolve #%d: %s at t=%s was shown auxiliary output %s, the step it follows produced %s" % (step_ix, n, e["t"], e.get("aux"), e.get("want_aux")), step=step_ix))
             return
         if n.startswith("log") and e["rep"] != rep_before + repl_ix:
             sim.viol.append(viol("logbook-rep", C, "rep", "evolve #%d: %s logged under rep %r, expected %r" % (step_ix, n, e["rep"], rep_before + repl_ix), step=step_ix))
